@@ -356,6 +356,8 @@ def _run_builtin(item, ctx, b):
                 ctx.outcome((item["which"], method, strat, n, leaves))
                 if abs(mass - 1.0) > 1e-9:
                     ctx.fail("leaf-probabilities-sum-to-one", case, observed=mass, expected=1.0)
+                else:
+                    ctx.add("complete_answer_trees_with_leaf_mass_1")
     ctx.sample({"kind": "builtin", "source": item["which"], "modes": [list(map(str, m)) for m in modes]})
     return None
 
